@@ -647,4 +647,19 @@ def Args.arguments (f : Fmt) (a : Args) (includeDefaults : Bool) : List (Str × 
     | some v => some (arg.name, v)
     | none => if includeDefaults then some (arg.name, arg.default) else none
 
+/-! ## Well-formedness of a flattened format, executable (the driver evaluates it on every format
+read from the real builder; `Lemmas/Realign.lean` proves it equivalent to the hypotheses of the
+re-alignment theorems) -/
+
+/-- a multi-valued argument stands in the last position only -/
+def multiLastB : List FArg → Bool
+  | [] => true
+  | [_] => true
+  | a :: b :: r => !a.multi && multiLastB (b :: r)
+
+/-- the argument keys are distinct -/
+def nodupKeysB : List FArg → Bool
+  | [] => true
+  | a :: r => !(r.any fun b => b.key == a.key) && nodupKeysB r
+
 end Clikit.Parser
